@@ -469,7 +469,10 @@ def write_evidence(machine, tier, seed, results, errors, wall, extra,
                             'digest': r['digest'],
                             'events': r.get('nevents')})
     n = len(results)
+    slow = sorted(((r.get('wall', 0), r['index']) for r in results),
+                  reverse=True)[:3]
     cov = {
+        'slowest_runs_wall_s_index': slow,
         'evaluations': n,
         'distinct_nontrivial': len(digests),
         'rule': machine.rule,
@@ -577,8 +580,10 @@ def _check(machine, tier, seed, log=print):
     for i, how in sorted((k, v) for k, v in crashed.items()
                          if k != '_left')[:4]:
         rs, case = gen_case(machine, seed, tier, i)
+        # a time-out on a busy machine is not a hang: the confirmation gets
+        # four times the per-run limit
         st, out = run_isolated(lambda: execute(machine, case, rs),
-                               plan.get('run_timeout', 180))
+                               4 * plan.get('run_timeout', 180))
         if st == 'crash':
             path = write_crash_replay(machine, rs, i, case, out, outdir)
             log(f"  run {i} crashes the interpreter / hangs ({out}), "
@@ -586,9 +591,10 @@ def _check(machine, tier, seed, log=print):
             crash_lines.append(
                 f"VIOLATION property={machine.pid} replay={path}")
         else:
-            errors.append(f'run {i}: worker died ({how}) but the run '
-                          f'completes in isolation')
+            # slow, not broken: the run counts, the event is reported
+            log(f"  run {i}: {how} in the batch, completes in isolation")
             out['index'] = i
+            out.setdefault('probes', {})['slow_or_interrupted_run'] = 1
             results.append(out)
     errors += [f"run {r['index']}: {r['error']}" for r in results
                if r.get('error')]
